@@ -12,6 +12,7 @@ require (
 	github.com/fako1024/slimcap v1.0.12
 	github.com/json-iterator/go v1.1.12
 	github.com/zeebo/xxh3 v1.1.0
+	golang.org/x/net v0.55.0
 )
 
 require (
@@ -83,7 +84,6 @@ require (
 	go.yaml.in/yaml/v2 v2.4.4 // indirect
 	go.yaml.in/yaml/v3 v3.0.4 // indirect
 	golang.org/x/crypto v0.52.0 // indirect
-	golang.org/x/net v0.55.0 // indirect
 	golang.org/x/sys v0.45.0 // indirect
 	golang.org/x/text v0.37.0 // indirect
 	golang.org/x/time v0.15.0 // indirect
